@@ -351,7 +351,7 @@ func verifPlainChar(name string) byte {
 // two-character string variable s: interpolation, strip markers, if/else and for directives,
 // plain and indented heredocs produce exactly the text the template rules prescribe.
 func H_c18_template() {
-	form := nondet_choice("form", 7)
+	form := nondet_choice("form", 10)
 	p, q := verifPlainChar("P"), verifPlainChar("Q")
 	sb := nondet_bytes("s", 2)
 	for _, c := range sb {
@@ -390,6 +390,19 @@ func H_c18_template() {
 	case 4:
 		src = append(append(append([]byte("\"%{for v in l}"), p), "${v}%{endfor}"...), q, '"')
 		want = string([]byte{p}) + s + string([]byte{p}) + "z" + string([]byte{q})
+	case 7: // a strip marker trims only the literal right next to it, not one after a further sequence
+		src = append(append([]byte{'"', p}, "${s ~}${s} "...), q, '"')
+		want = string([]byte{p}) + s + s + " " + string([]byte{q})
+	case 8: // the same with a directive in front
+		src = append(append(append([]byte("\"%{ if c ~}${s} "), p), " %{ endif }"...), q, '"')
+		if cond {
+			want = s + " " + string([]byte{p}) + " " + string([]byte{q})
+		} else {
+			want = string([]byte{q})
+		}
+	case 9: // left strip marker: only the literal right before it
+		src = append(append([]byte{'"', p, ' '}, "${s} ${~ s}"...), q, '"')
+		want = string([]byte{p}) + " " + s + s + string([]byte{q})
 	case 5: // heredoc: every line up to the marker, newlines kept (the marker is longer than any line)
 		src = append(append(append(append([]byte("<<EOTX\n"), p), "${s}\n"...), q, '\n'), "EOTX\n"...)
 		want = string([]byte{p}) + s + "\n" + string([]byte{q}) + "\n"
